@@ -1,5 +1,6 @@
 import JSL.Inv.EnvReach
 import JSL.Props.C02
+import JSL.Inv.OutagePast
 
 /-!
 # C10 — outages block a component for exactly their duration, then release it
@@ -13,6 +14,15 @@ import JSL.Props.C02
   and the end time of those that struck remembered;
 * `c10_no_outage_immediate` – with no outage due the component is occupied until *now*, i.e. the
   release transition is due in the same instant.
+
+Composed over whole episodes (`Inv/OutageInv.lean`, `Inv/OutagePast.lean`):
+**`c10_outage_records`** – in every exposed state a component that is not in OUTAGE carries only
+inactive records, and one in OUTAGE is occupied exactly until the strike instant plus its longest
+active outage, every active record having started at the strike; `c10_blocked_window` – while in
+OUTAGE a machine still holds its job, an AGV claims none, and the clock lies in that window;
+`c10_remembered_ends_are_past` – every remembered end is an instant that has passed.  They need
+the initial records to be inactive (`outRestB`, `outPastB` – what the compiler produces; printed on
+the `G` line by both sides).
 -/
 
 namespace JSL
@@ -121,5 +131,33 @@ theorem c10_not_released_before {cfg : SMConfig} {s0 σ : State} (hst : Start or
     ∃ j ∈ σ.jobs, m.buffer.store = [j.id] ∧ ∃ b, m.occ = some b ∧ σ.time ≤ b := by
   obtain ⟨j, hj, hstore, op, b, _, _, _, hocc, hle⟩ := c02_no_overdue hst h hm (by rw [hs]; simp)
   exact ⟨j, hj, hstore, b, hocc, hle⟩
+
+/-- **Outage bookkeeping in every exposed state.** -/
+theorem c10_outage_records {ec : EnvCfg} {st : RewardStatic} {s0 σ : State} (hst : Start orc inst s0)
+    (h0 : outRestB s0 = true) (h : Exposed orc inst ec st s0 σ) : OutageRec σ :=
+  exposed_outage hst h0 h
+
+/-- a machine in OUTAGE: the clock lies between the strike and the strike plus the longest active
+outage, the machine is occupied exactly until then and still holds its job -/
+theorem c10_blocked_window {cfg : SMConfig} {s0 σ : State} (hst : Start orc inst s0) (h0 : outRestB s0 = true)
+    (h : OccursA orc inst cfg s0 σ) {m : MachineState} (hm : m ∈ σ.machines) (hs : m.st = .outage) :
+    ∃ a, m.occ = some (a + occupiedFor m.outages) ∧ a ≤ σ.time ∧ σ.time ≤ a + occupiedFor m.outages ∧
+      StruckAt m.outages a ∧ ∃ j ∈ σ.jobs, m.buffer.store = [j.id] :=
+  occursA_outage_machine hst h0 h hm hs
+
+/-- an AGV in OUTAGE: the same window, and it claims no job -/
+theorem c10_blocked_window_agv {cfg : SMConfig} {s0 σ : State} (hst : Start orc inst s0) (h0 : outRestB s0 = true)
+    (h : OccursA orc inst cfg s0 σ) {t : TransportState} (ht : t ∈ σ.transports) (hs : t.st = .outage) :
+    ∃ a, t.occ = .at (a + occupiedFor t.outages) ∧ a ≤ σ.time ∧ σ.time ≤ a + occupiedFor t.outages ∧
+      StruckAt t.outages a ∧ t.job = none :=
+  occursA_outage_agv hst h0 h ht hs
+
+/-- every remembered outage end lies in the past -/
+theorem c10_remembered_ends_are_past {cfg : SMConfig} {s0 σ : State} (hst : Start orc inst s0) (h0 : outRestB s0 = true)
+    (h1 : outPastB s0 = true) (h : OccursA orc inst cfg s0 σ) : OutagePast σ :=
+  occursA_outagePast hst h0 h1 h
+
+/-- non-vacuity: the example initial state has its outage records at rest -/
+example : outRestB Ex.s0 = true ∧ outPastB Ex.s0 = true := by decide
 
 end JSL
